@@ -246,16 +246,73 @@ def check(an, rep, tier):
         why = 'select at stmt %s, mask at %s, re-mask of the residuals at ' \
             '%s' % (sel, mask, remask)
     rep.add('P-pair', 'maxvol.maxvol_rect', 'index[k] = i ; mask[i] = 0 ; '
-            '... ; residual = mask * (...)', 'ok' if okp else 'violation',
+            '... ; residual = mask * (...)',
+            'ok' if okp else ('violation' if why != 'loop not found'
+                              else 'unknown'),
             '' if okp else 'a selected row must be masked before the residual '
             'vector is re-masked in the same iteration (otherwise the row can '
             'be selected twice): %s' % why, line=fn.node.lineno, file=mod.path)
+    # --- T-downdate: the carried squared row norms follow the update of B.
+    # With v = B B_i^T and l = 1 / (1 + v_i) the new rows are
+    # [B_j - l v_j B_i , l v_j], whose squared norm is F_j - l v_j**2
+    # (polynomial identity; roles found from the dataflow, not from names)
+    from ..rules_formula import Rat, rat_eval
+    from .. import roles as _roles
+    for lp in loops:
+        lb_ = paths.linear(lp.body)
+        vname = lname = None
+        for st in lb_:
+            if isinstance(st, ast.Assign) and \
+                    isinstance(st.targets[0], ast.Name) and \
+                    isinstance(st.value, ast.Call) and \
+                    isinstance(st.value.func, ast.Attribute) and \
+                    st.value.func.attr == 'dot' and \
+                    isinstance(st.value.func.value, ast.Name):
+                vname = st.targets[0].id
+            if isinstance(st, ast.Assign) and \
+                    isinstance(st.targets[0], ast.Name) and vname and \
+                    isinstance(st.value, ast.BinOp) and \
+                    isinstance(st.value.op, ast.Div) and \
+                    any(isinstance(x, ast.Subscript) and
+                        isinstance(x.value, ast.Name) and x.value.id == vname
+                        for x in ast.walk(st.value.right)):
+                lname = st.targets[0].id
+        if not (vname and lname and fname and sname):
+            continue
+        for st in lb_:
+            if isinstance(st, ast.Assign) and \
+                    isinstance(st.targets[0], ast.Name) and \
+                    st.targets[0].id == fname and \
+                    isinstance(st.value, ast.BinOp) and \
+                    isinstance(st.value.op, ast.Mult):
+                other = st.value.right if (
+                    isinstance(st.value.left, ast.Name) and
+                    st.value.left.id == sname) else st.value.left
+                try:
+                    got = rat_eval(other, {})
+                except ValueError:
+                    rep.unknown('T-downdate', 'maxvol.maxvol_rect',
+                                'carried row norms', 'expression outside the '
+                                'supported fragment')
+                    continue
+                F_, l_, v_ = (Rat(Poly.sym(x)) for x in (fname, lname, vname))
+                want = F_ - l_ * v_ * v_
+                ok_ = got.eq(want)
+                rep.add('T-downdate', 'maxvol.maxvol_rect', 'carried squared '
+                        'row norms:  F - l * v**2', 'ok' if ok_ else 'violation',
+                        '' if ok_ else 'the carried squared row norms are '
+                        'updated to %r; adding the row with l = 1 / (1 + v_i) '
+                        'changes them to F - l * v**2, so the stop test no '
+                        'longer sees the true row norms' % (got.reduced(),),
+                        line=st.lineno, file=mod.path)
     # row-norm stop criterion uses the accuracy parameter of maxvol_rect
     okt = False
+    stop_found = False
     for lp in loops:
         for st in paths.linear(lp.body):
             if isinstance(st, ast.If) and any(isinstance(b, ast.Break)
                                               for b in st.body):
+                stop_found = True
                 names = [x.id for x in ast.walk(st.test)
                          if isinstance(x, ast.Name)]
                 e_par = fn.params[1] if len(fn.params) > 1 else 'e'
@@ -264,12 +321,14 @@ def check(an, rep, tier):
                 okt = names.count(e_par) >= 1 and fname in names and \
                     not other_par
     rep.add('P-threshold', 'maxvol.maxvol_rect', 'greedy loop stops on '
-            'F[i] <= e*e', 'ok' if okt else 'violation',
+            'F[i] <= e*e', 'ok' if okt else ('violation' if stop_found and
+                                             fname else 'unknown'),
             '' if okt else 'the early-stop test of the greedy additions must '
             'compare the largest residual row norm with the accuracy '
             'parameter e of maxvol_rect (not with the tolerance of the inner '
             'maxvol)', line=fn.node.lineno, file=mod.path)
     init = False
+    init_found = False
     lin_ = paths.linear(fn.node.body)
     for i, st in enumerate(lin_):
         if isinstance(st, ast.Assign) and \
@@ -277,14 +336,24 @@ def check(an, rep, tier):
                 isinstance(st.targets[0].value, ast.Name) and \
                 st.targets[0].value.id == sname and \
                 isinstance(st.value, ast.Constant) and st.value.value == 0:
-            nxt = lin_[i + 1] if i + 1 < len(lin_) else None
-            init = isinstance(nxt, ast.Assign) and \
-                isinstance(nxt.targets[0], ast.Name) and \
-                nxt.targets[0].id == fname and sname in {
-                    x.id for x in ast.walk(nxt.value)
-                    if isinstance(x, ast.Name)}
+            init_found = True
+            # the first later assignment of the residual vector uses the mask
+            for nxt in lin_[i + 1:]:
+                if isinstance(nxt, (ast.For, ast.While)):
+                    break
+                if isinstance(nxt, ast.Assign) and \
+                        isinstance(nxt.targets[0], ast.Name) and \
+                        nxt.targets[0].id == fname:
+                    init = sname in {x.id for x in ast.walk(nxt.value)
+                                     if isinstance(x, ast.Name)}
+                    break
+    if not init_found and fname and sname:
+        # the mask may be built masked in one go: mask creation not a store
+        init_found = False
     rep.add('P-pair', 'maxvol.maxvol_rect', 'S[I0] = 0 before the first '
-            'F = S * ...', 'ok' if init else 'violation',
+            'F = S * ...', 'ok' if init else (
+                'violation' if (init_found or (fname and sname)) else
+                'unknown'),
             '' if init else 'the rows chosen by maxvol are not masked before '
             'the greedy additions start')
     from .. import rules_proto as _RPZ
@@ -292,5 +361,6 @@ def check(an, rep, tier):
     rep.floor('S-summary', 1, 'summary conformance (maxvol)')
     rep.floor('P-domain', 9, 'rejections')
     rep.floor('P-pair', 2, 'select / mask pairing')
+    rep.floor('T-downdate', 1, 'row-norm downdate')
     rep.floor('G-div', 2, 'guarded divisions')
     rep.floor('S-solve', 2, 'triangular solves')
